@@ -221,6 +221,96 @@ fn binary_cases(tier: Tier) -> Vec<Scenario> {
             }
         }
     }
+    // two upstream replicas on the left side: the per-side end accounting of the two-input Start
+    // (LeftEnd only after BOTH replicas ended their iteration), every arrival order of the two
+    // replicas' batches and every answer of the select
+    for op in [Op2::JoinHashOuter, Op2::KeyedOuter, Op2::Merge, Op2::Zip] {
+        for (la, lb, r) in [
+            (vec![(0i64, 1i64)], vec![(0i64, 2i64)], vec![(0i64, 9i64)]),
+            (vec![(1, 1)], vec![], vec![(1, 9), (0, 8)]),
+            (vec![], vec![(0, 2)], vec![]),
+        ] {
+            let name = format!("C05/binary-2-left-replicas/{:?}/LA{:?}LB{:?}R{:?}", op, la, lb, r).replace(' ', "");
+            let descr = format!("{:?}: left side fed by two upstream replicas {:?} and {:?}, right side {:?}; one iteration; every arrival order", op, la, lb, r);
+            out.push(select_scenario(name, descr, Arc::new(move || {
+                let mk = |a: &Vec<(i64, i64)>, off: i64| -> Vec<Vec<El<(i64, i64)>>> {
+                    let mut v: Vec<Vec<El<(i64, i64)>>> = a.iter().map(|x| vec![StreamElement::Item((x.0, x.1 + off))]).collect();
+                    v.push(vec![StreamElement::FlushAndRestart]);
+                    v.push(vec![StreamElement::Terminate]);
+                    v
+                };
+                let env = StreamContext::new(RuntimeConfig::local(1).unwrap());
+                let s1 = env.stream(ScriptSource::<(i64, i64)>::new(vec![], Replication::One));
+                let s2 = env.stream(ScriptSource::<(i64, i64)>::new(vec![], Replication::One));
+                let k = |x: &(i64, i64)| x.0;
+                type P = (Option<i64>, Option<i64>);
+                let left = vec![mk(&la, 0), mk(&lb, 0)];
+                let right = vec![mk(&r, 100)];
+                let outn: Vec<Norm> = match op {
+                    Op2::JoinHashOuter => norm(&drive_binary(s1.join_with(s2, k, k).ship_hash().local_hash().outer().map(|(_, (l, r))| (l.map(|x| x.1), r.map(|x| x.1))).unkey().map(|x: (i64, P)| x.1).verif_into_chain(), left, right)),
+                    Op2::KeyedOuter => norm(&drive_binary(s1.to_keyed().join_outer(s2.to_keyed()).unkey().map(|x: (i64, P)| x.1).verif_into_chain(), left, right)),
+                    Op2::Zip => norm(&drive_binary(s1.zip(s2).map(|(a, b)| (Some(a.1), Some(b.1))).verif_into_chain(), left, right)),
+                    _ => norm(&drive_binary(s1.merge(s2).map(|a| (Some(a.1), None::<i64>)).verif_into_chain(), left, right)),
+                };
+                let sh: Vec<(u8, Option<i64>)> = outn.iter().map(|e| (e.0, e.1)).collect();
+                if let Some((sig, msg)) = grammar(&sh) {
+                    return Some(Fail::new(format!("c05-2rep-{:?}-grammar-{sig}", op), format!("{:?}: {msg}; output {:?}", op, outn)));
+                }
+                let its = split_iters(&outn);
+                if its.len() != 1 {
+                    return Some(Fail::new(format!("c05-2rep-{:?}-iterations", op), format!("{:?}: {} iterations out, 1 in: {:?}", op, its.len(), outn)));
+                }
+                let mut l: Vec<(i64, i64)> = la.clone();
+                l.extend(lb.iter().copied());
+                let mut exp: Vec<P> = vec![];
+                match op {
+                    Op2::JoinHashOuter | Op2::KeyedOuter => {
+                        for a in &l {
+                            let mut m = false;
+                            for b in &r {
+                                if a.0 == b.0 {
+                                    m = true;
+                                    exp.push((Some(a.1), Some(b.1 + 100)));
+                                }
+                            }
+                            if !m {
+                                exp.push((Some(a.1), None));
+                            }
+                        }
+                        for b in &r {
+                            if !l.iter().any(|a| a.0 == b.0) {
+                                exp.push((None, Some(b.1 + 100)));
+                            }
+                        }
+                    }
+                    Op2::Zip => {
+                        // with two left replicas only the number of pairs and no reuse are fixed
+                        let got: Vec<Vec<i64>> = its[0].iter().filter(|e| e.0 <= 1).map(|e| e.2.clone()).collect();
+                        if got.len() != l.len().min(r.len()) {
+                            return Some(Fail::new("c05-2rep-Zip-count", format!("zip: {} pairs, expected {}: {:?}", got.len(), l.len().min(r.len()), got)));
+                        }
+                        return None;
+                    }
+                    _ => {
+                        for a in &l {
+                            exp.push((Some(a.1), None));
+                        }
+                        for b in &r {
+                            exp.push((Some(b.1 + 100), None));
+                        }
+                    }
+                }
+                let mut e: Vec<Vec<i64>> = exp.iter().map(|p| p.encoded()).collect();
+                e.sort();
+                let mut got: Vec<Vec<i64>> = its[0].iter().filter(|e| e.0 <= 1).map(|e| e.2.clone()).collect();
+                got.sort();
+                if got != e {
+                    return Some(Fail::new(format!("c05-2rep-{:?}-wrong", op), format!("{:?} with left replicas {:?} / {:?} and right {:?}: got {:?}, expected {:?} (full output {:?})", op, la, lb, r, got, e, outn)));
+                }
+                None
+            })));
+        }
+    }
     out
 }
 
